@@ -1,8 +1,12 @@
 package main
 
 import (
+	"bytes"
 	"fmt"
 	"math"
+	"math/bits"
+	"os"
+	"os/exec"
 	"sort"
 	"strconv"
 	"strings"
@@ -25,6 +29,76 @@ func (v *sval) Size() int { return v.size }
 
 type item struct{ k, v, sz int }
 
+// Keys of the scripts are naturals; the real caches get keys of several Go types (the cache is keyed by interface{}):
+// the natural k is mapped injectively to an int, string, int64, array, uint16/uint32 or struct key, and nilKey to the
+// nil interface (a legal map key).
+const nilKey = 4242
+
+type structKey struct {
+	a int
+	b string
+}
+
+func goKey(k int) interface{} {
+	if k == nilKey {
+		return nil
+	}
+	switch k % 6 {
+	case 0:
+		return k
+	case 1:
+		return "k" + strconv.Itoa(k)
+	case 2:
+		return int64(k)
+	case 3:
+		return [2]int{k, -k}
+	case 4:
+		if k < 65536 {
+			return uint16(k)
+		}
+		return uint32(k)
+	}
+	return structKey{k, "x"}
+}
+
+func natKey(x interface{}) int {
+	switch v := x.(type) {
+	case nil:
+		return nilKey
+	case int:
+		return v
+	case string:
+		n, _ := strconv.Atoi(strings.TrimPrefix(v, "k"))
+		return n
+	case int64:
+		return int(v)
+	case [2]int:
+		return v[0]
+	case uint16:
+		return int(v)
+	case uint32:
+		return int(v)
+	case structKey:
+		return v.a
+	}
+	return -1
+}
+
+// tiny values are interface{}: the script value 0 stands for a nil value
+func tinyVal(v int) interface{} {
+	if v == 0 {
+		return nil
+	}
+	return v
+}
+
+func tinyInt(x interface{}) int {
+	if x == nil {
+		return 0
+	}
+	return x.(int)
+}
+
 type lruAPI interface {
 	Set(k, v, sz int)
 	SetIfAbsent(k, v, sz int)
@@ -38,35 +112,39 @@ type lruAPI interface {
 	Keys() []int
 	Items() []item
 	Stats() (l, s, c, e int64)
+	Accessors() (l, s, c, e int64) // Length(), Size(), Capacity(), Evictions()
 	Pkg() string
 }
 
 type sizedAd struct{ c *cache.LRUCache }
 
 func (a sizedAd) Pkg() string               { return "cache.LRUCache" }
-func (a sizedAd) Set(k, v, sz int)          { a.c.Set(k, &sval{v, sz}) }
-func (a sizedAd) SetIfAbsent(k, v, sz int)  { a.c.SetIfAbsent(k, &sval{v, sz}) }
-func (a sizedAd) Exist(k int) bool          { return a.c.Exist(k) }
-func (a sizedAd) Delete(k int) bool         { return a.c.Delete(k) }
+func (a sizedAd) Set(k, v, sz int)          { a.c.Set(goKey(k), &sval{v, sz}) }
+func (a sizedAd) SetIfAbsent(k, v, sz int)  { a.c.SetIfAbsent(goKey(k), &sval{v, sz}) }
+func (a sizedAd) Exist(k int) bool          { return a.c.Exist(goKey(k)) }
+func (a sizedAd) Delete(k int) bool         { return a.c.Delete(goKey(k)) }
 func (a sizedAd) Clear()                    { a.c.Clear() }
 func (a sizedAd) SetCapacity(c int64)       { a.c.SetCapacity(c) }
 func (a sizedAd) Stats() (l, s, c, e int64) { return a.c.Stats() }
+func (a sizedAd) Accessors() (l, s, c, e int64) {
+	return a.c.Length(), a.c.Size(), a.c.Capacity(), a.c.Evictions()
+}
 func (a sizedAd) SetAndGetRemoved(k, v, sz int) []int {
 	var out []int
-	for _, x := range a.c.SetAndGetRemoved(k, &sval{v, sz}) {
+	for _, x := range a.c.SetAndGetRemoved(goKey(k), &sval{v, sz}) {
 		out = append(out, x.(*sval).id)
 	}
 	return out
 }
 func (a sizedAd) Get(k int) (int, bool) {
-	v, ok := a.c.Get(k)
+	v, ok := a.c.Get(goKey(k))
 	if !ok {
 		return 0, false
 	}
 	return v.(*sval).id, true
 }
 func (a sizedAd) Peek(k int) (int, bool) {
-	v, ok := a.c.Peek(k)
+	v, ok := a.c.Peek(goKey(k))
 	if !ok {
 		return 0, false
 	}
@@ -75,7 +153,7 @@ func (a sizedAd) Peek(k int) (int, bool) {
 func (a sizedAd) Keys() []int {
 	var out []int
 	for _, k := range a.c.Keys() {
-		out = append(out, k.(int))
+		out = append(out, natKey(k))
 	}
 	return out
 }
@@ -83,7 +161,7 @@ func (a sizedAd) Items() []item {
 	var out []item
 	for _, it := range a.c.Items() {
 		v := it.Value.(*sval)
-		out = append(out, item{it.Key.(int), v.id, v.Size()})
+		out = append(out, item{natKey(it.Key), v.id, v.Size()})
 	}
 	return out
 }
@@ -91,45 +169,48 @@ func (a sizedAd) Items() []item {
 type tinyAd struct{ c *tiny.LRUCache }
 
 func (a tinyAd) Pkg() string               { return "tiny.LRUCache" }
-func (a tinyAd) Set(k, v, sz int)          { a.c.Set(k, v) }
-func (a tinyAd) SetIfAbsent(k, v, sz int)  { a.c.SetIfAbsent(k, v) }
-func (a tinyAd) Exist(k int) bool          { return a.c.Exist(k) }
-func (a tinyAd) Delete(k int) bool         { return a.c.Delete(k) }
+func (a tinyAd) Set(k, v, sz int)          { a.c.Set(goKey(k), tinyVal(v)) }
+func (a tinyAd) SetIfAbsent(k, v, sz int)  { a.c.SetIfAbsent(goKey(k), tinyVal(v)) }
+func (a tinyAd) Exist(k int) bool          { return a.c.Exist(goKey(k)) }
+func (a tinyAd) Delete(k int) bool         { return a.c.Delete(goKey(k)) }
 func (a tinyAd) Clear()                    { a.c.Clear() }
 func (a tinyAd) SetCapacity(c int64)       { a.c.SetCapacity(c) }
 func (a tinyAd) Stats() (l, s, c, e int64) { return a.c.Stats() }
+func (a tinyAd) Accessors() (l, s, c, e int64) {
+	return a.c.Length(), a.c.Size(), a.c.Capacity(), a.c.Evictions()
+}
 func (a tinyAd) SetAndGetRemoved(k, v, sz int) []int {
 	var out []int
-	for _, x := range a.c.SetAndGetRemoved(k, v) {
-		out = append(out, x.(int))
+	for _, x := range a.c.SetAndGetRemoved(goKey(k), tinyVal(v)) {
+		out = append(out, tinyInt(x))
 	}
 	return out
 }
 func (a tinyAd) Get(k int) (int, bool) {
-	v, ok := a.c.Get(k)
+	v, ok := a.c.Get(goKey(k))
 	if !ok {
 		return 0, false
 	}
-	return v.(int), true
+	return tinyInt(v), true
 }
 func (a tinyAd) Peek(k int) (int, bool) {
-	v, ok := a.c.Peek(k)
+	v, ok := a.c.Peek(goKey(k))
 	if !ok {
 		return 0, false
 	}
-	return v.(int), true
+	return tinyInt(v), true
 }
 func (a tinyAd) Keys() []int {
 	var out []int
 	for _, k := range a.c.Keys() {
-		out = append(out, k.(int))
+		out = append(out, natKey(k))
 	}
 	return out
 }
 func (a tinyAd) Items() []item {
 	var out []item
 	for _, it := range a.c.Items() {
-		out = append(out, item{it.Key.(int), it.Value.(int), 1})
+		out = append(out, item{natKey(it.Key), tinyInt(it.Value), 1})
 	}
 	return out
 }
@@ -192,6 +273,7 @@ type snap struct {
 	keys       []int
 	items      []item
 	l, s, c, e int64
+	acc        [4]int64 // Length(), Size(), Capacity(), Evictions() called one by one
 }
 
 func takeSnap(a lruAPI) snap {
@@ -199,6 +281,7 @@ func takeSnap(a lruAPI) snap {
 	sn.keys = a.Keys()
 	sn.items = a.Items()
 	sn.l, sn.s, sn.c, sn.e = a.Stats()
+	sn.acc[0], sn.acc[1], sn.acc[2], sn.acc[3] = a.Accessors()
 	return sn
 }
 
@@ -215,7 +298,8 @@ func (sn snap) String() string {
 	for _, x := range sn.items {
 		it = append(it, fmt.Sprintf("%d:%d:%d", x.k, x.v, x.sz))
 	}
-	return fmt.Sprintf("K=%s I=[%s] S=%d,%d,%d,%d", ints(sn.keys), strings.Join(it, ","), sn.l, sn.s, sn.c, sn.e)
+	return fmt.Sprintf("K=%s I=[%s] S=%d,%d,%d,%d A=%d,%d,%d,%d", ints(sn.keys), strings.Join(it, ","), sn.l, sn.s, sn.c, sn.e,
+		sn.acc[0], sn.acc[1], sn.acc[2], sn.acc[3])
 }
 
 // strict decimal parsing, the same language the Lean oracle accepts (String.toNat? / toInt?)
@@ -262,6 +346,7 @@ type runner struct {
 	n, u        int
 	wcap        int64
 	capOverflow bool
+	concCap     int64         // capacity named by the script's `new` / `wnew` line
 	recency     map[int][]int // per shard: keys from most to least recently used, as the calls so far imply
 	route       []int         // shard of key k (k < u)
 	shardCap    int64
@@ -306,7 +391,7 @@ func (r *runner) line(line string) string {
 		if !ok {
 			return "bad-op"
 		}
-		r.mode, r.tiny, r.regime = "single", f[1] == "tiny", c >= 0
+		r.mode, r.tiny, r.regime, r.concCap = "single", f[1] == "tiny", c >= 0, c
 		if r.tiny {
 			r.a = tinyAd{tiny.NewLRUCache(c)}
 		} else {
@@ -316,7 +401,7 @@ func (r *runner) line(line string) string {
 	case "wnew":
 		return r.wnew(f)
 	case "conc":
-		if len(f) != 4 || r.mode != "single" {
+		if len(f) != 4 || (r.mode != "single" && r.mode != "wide") {
 			return "bad-op"
 		}
 		seed, ok1 := parseNat(f[1])
@@ -495,7 +580,7 @@ func (r *runner) monitor(op string, args []int64, before, after snap, res string
 	m := methodOf[op]
 	key := func(what string) string {
 		switch what {
-		case "size-exceeds-capacity", "size-accounting", "keys-items-listing":
+		case "size-exceeds-capacity", "size-accounting", "keys-items-listing", "accessors-disagree-with-Stats":
 			return "C04:" + pkg + ":state:" + what // one root cause, whichever method shows it first
 		case "evicts-not-least-recent", "needless-eviction", "evictions-count", "removed-list":
 			return "C04:" + pkg + ":checkCapacity:" + what
@@ -506,6 +591,22 @@ func (r *runner) monitor(op string, args []int64, before, after snap, res string
 	if panicked {
 		r.hit(key("panics"), ctx)
 		return
+	}
+	// the int64 size counter: the true sum of the item sizes (computed without wrap-around) must be representable
+	if !r.tiny {
+		var hi, lo uint64
+		for _, it := range after.items {
+			var carry uint64
+			lo, carry = bits.Add64(lo, uint64(it.sz), 0)
+			hi += carry
+		}
+		if hi != 0 || lo > math.MaxInt64 {
+			r.hit("C04:"+pkg+":size-counter-overflows", fmt.Sprintf("the item sizes sum to %d*2^64+%d > MaxInt64: Size()=%d, capacity %d, nothing evicted; %s", hi, lo, after.s, after.c, ctx))
+			return
+		}
+	}
+	if after.acc != [4]int64{after.l, after.s, after.c, after.e} {
+		r.hit(key("accessors-disagree-with-Stats"), fmt.Sprintf("Length/Size/Capacity/Evictions = %v; %s", after.acc, ctx))
 	}
 	// state-wide clauses
 	if after.s > after.c {
@@ -615,31 +716,127 @@ func (r *runner) monitor(op string, args []int64, before, after snap, res string
 	}
 }
 
-// ---------------------------------------------------------------- concurrent callers: invariants only
+// ---------------------------------------------------------------- concurrent callers: a genuinely parallel stress run
+//
+// `conc <seed> <threads> <ops>` starts a CHILD PROCESS of this binary (`c04 concchild …`) in which <threads> goroutines
+// hammer one fresh cache of the script's kind and capacity (or a wide cache of the script's shard count) without any
+// coordination. At quiescence the child checks: size <= capacity, size = sum of item sizes (tiny: = length),
+// Length = len(Keys) = len(Items), no duplicate key; listings taken while others mutate must be duplicate-free.
+// A crash of the child (fatal "concurrent map writes", nil dereference, …) is a hit `C04:concurrency:crash`, a broken
+// invariant `C04:concurrency:invariant`. The child exceeding its time limit is a HARNESS ERROR (exit 2), never a verdict.
+
+const concLimit = 120 * time.Second
 
 func (r *runner) conc(seed, threads, ops int) string {
-	a := r.a
 	if threads < 1 || threads > 16 || ops > 5000 {
 		return "bad-op"
 	}
-	var wg sync.WaitGroup
+	kind := "lru"
+	if r.tiny {
+		kind = "tiny"
+	}
+	shards := 0
+	if r.mode == "wide" {
+		shards = r.n
+	}
+	exe, err := os.Executable()
+	if err != nil {
+		fmt.Fprintln(os.Stderr, "c04: cannot locate own executable:", err)
+		os.Exit(2)
+	}
+	cmd := exec.Command(exe, "concchild", kind, strconv.FormatInt(r.concCap, 10), strconv.Itoa(seed), strconv.Itoa(threads), strconv.Itoa(ops), strconv.Itoa(shards))
+	var out, errb bytes.Buffer
+	cmd.Stdout, cmd.Stderr = &out, &errb
+	if err := cmd.Start(); err != nil {
+		fmt.Fprintln(os.Stderr, "c04: cannot start the stress child:", err)
+		os.Exit(2)
+	}
+	done := make(chan error, 1)
+	go func() { done <- cmd.Wait() }()
+	var werr error
+	select {
+	case werr = <-done:
+	case <-time.After(concLimit):
+		_ = cmd.Process.Kill()
+		fmt.Fprintf(os.Stderr, "c04: stress child (%s) did not finish within %v — harness error, no verdict\n", strings.Join(cmd.Args[1:], " "), concLimit)
+		os.Exit(2)
+	}
+	r.mode = "" // the script's cache is not touched; nothing after `conc` is meaningful
+	res := strings.TrimSpace(out.String())
+	what := fmt.Sprintf("%d goroutines x %d calls on a %s cache of capacity %d (%d shards)", threads, ops, kind, r.concCap, shards)
+	switch {
+	case werr != nil:
+		tail := errb.String()
+		if len(tail) > 600 {
+			tail = tail[:600]
+		}
+		r.hit("C04:concurrency:crash", what+": the process died: "+strings.ReplaceAll(tail, "\n", " | "))
+		return "crashed"
+	case res == "inv-ok":
+		return "inv-ok"
+	default:
+		r.hit("C04:concurrency:invariant", what+": "+res)
+		return "inv-violated"
+	}
+}
+
+// concChild is the body of the child process.
+func concChild(args []string) {
+	if len(args) != 6 {
+		os.Exit(3)
+	}
+	kind := args[0]
+	capacity, _ := strconv.ParseInt(args[1], 10, 64)
+	seed, _ := strconv.Atoi(args[2])
+	threads, _ := strconv.Atoi(args[3])
+	ops, _ := strconv.Atoi(args[4])
+	shards, _ := strconv.Atoi(args[5])
 	var mu sync.Mutex
 	bad := ""
+	fail := func(s string) {
+		mu.Lock()
+		if bad == "" {
+			bad = s
+		}
+		mu.Unlock()
+	}
+	var a lruAPI
+	var w wideAPI
+	switch {
+	case shards > 0 && kind == "tiny":
+		w = wideTiny{tiny.NeWideLRU(capacity, remap.WithPrime(uint64(shards)))}
+	case shards > 0:
+		w = wideSized{cache.NeWideLRUCache(capacity, remap.WithPrime(uint64(shards)))}
+	case kind == "tiny":
+		a = tinyAd{tiny.NewLRUCache(capacity)}
+	default:
+		a = sizedAd{cache.NewLRUCache(capacity)}
+	}
+	const universe = 24
+	var wg sync.WaitGroup
 	for t := 0; t < threads; t++ {
 		wg.Add(1)
 		go func(t int) {
 			defer wg.Done()
-			defer func() {
-				if x := recover(); x != nil {
-					mu.Lock()
-					bad = fmt.Sprintf("panic:%v", x)
-					mu.Unlock()
-				}
-			}()
 			g := rng.New(uint64(seed)*977 + uint64(t))
 			for i := 0; i < ops; i++ {
-				k, v, sz := g.Intn(6), t*100000+i, g.Intn(5)
-				switch g.Intn(9) {
+				k, v, sz := g.Intn(universe), t*100000+i+1, g.Intn(4)
+				if w != nil {
+					switch g.Intn(6) {
+					case 0, 1:
+						w.Set(k, v, 1)
+					case 2:
+						w.Get(k)
+					case 3:
+						w.Peek(k)
+					case 4:
+						w.Exist(k)
+					default:
+						w.Delete(k)
+					}
+					continue
+				}
+				switch g.Intn(11) {
 				case 0, 1:
 					a.Set(k, v, sz)
 				case 2:
@@ -653,16 +850,23 @@ func (r *runner) conc(seed, threads, ops int) string {
 				case 6:
 					a.Delete(k)
 				case 7:
-					a.SetCapacity(int64(g.Intn(12)))
+					a.SetCapacity(capacity + int64(g.Intn(3)))
 				case 8:
-					// a listing taken while others mutate must itself be consistent
-					its := a.Items()
+					a.Exist(k)
+				case 9:
+					ks := a.Keys()
 					seen := map[int]bool{}
-					for _, it := range its {
+					for _, q := range ks {
+						if seen[q] {
+							fail("duplicate key in Keys() taken while others mutate")
+						}
+						seen[q] = true
+					}
+				default:
+					seen := map[int]bool{}
+					for _, it := range a.Items() {
 						if seen[it.k] {
-							mu.Lock()
-							bad = "duplicate key in Items()"
-							mu.Unlock()
+							fail("duplicate key in Items() taken while others mutate")
 						}
 						seen[it.k] = true
 					}
@@ -670,35 +874,47 @@ func (r *runner) conc(seed, threads, ops int) string {
 			}
 		}(t)
 	}
-	done := make(chan struct{})
-	go func() { wg.Wait(); close(done) }()
-	select {
-	case <-done:
-	case <-time.After(20 * time.Second):
-		r.hit("C04:"+a.Pkg()+":concurrent:deadlock", "concurrent callers did not finish")
-		r.mode = ""
-		return "inv-violated:stuck"
+	wg.Wait()
+	if w != nil {
+		per := capacity/int64(shards) + 1
+		count := map[int]int64{}
+		for k := 0; k < universe; k++ {
+			if _, ok := w.Peek(k); ok {
+				count[k%shards]++
+			}
+		}
+		for sh, c := range count {
+			if c > per {
+				fail(fmt.Sprintf("shard %d holds %d unit items, per-shard capacity %d", sh, c, per))
+			}
+		}
+	} else {
+		sn := takeSnap(a)
+		want := sumSizes(sn.items)
+		if kind == "tiny" {
+			want = int64(len(sn.items))
+		}
+		seen := map[int]bool{}
+		for _, k := range sn.keys {
+			if seen[k] {
+				fail("duplicate key at quiescence")
+			}
+			seen[k] = true
+		}
+		switch {
+		case sn.s != want:
+			fail(fmt.Sprintf("Size()=%d but the items sum to %d", sn.s, want))
+		case sn.l != int64(len(sn.keys)) || len(sn.keys) != len(sn.items):
+			fail(fmt.Sprintf("Length()=%d, len(Keys())=%d, len(Items())=%d", sn.l, len(sn.keys), len(sn.items)))
+		case sn.s > sn.c:
+			fail(fmt.Sprintf("size %d exceeds capacity %d at quiescence", sn.s, sn.c))
+		}
 	}
-	sn := takeSnap(a)
-	want := sumSizes(sn.items)
-	if r.tiny {
-		want = int64(len(sn.items))
-	}
-	switch {
-	case bad != "":
-	case sn.s != want || sn.l != int64(len(sn.items)):
-		bad = fmt.Sprintf("size accounting: Size()=%d Length()=%d items sum %d (%d items)", sn.s, sn.l, want, len(sn.items))
-	case sn.s > sn.c:
-		bad = fmt.Sprintf("size %d exceeds capacity %d", sn.s, sn.c)
-	case len(sn.keys) != len(sn.items):
-		bad = "Keys()/Items() differ"
-	}
-	r.mode = "" // the state is no longer a function of the script
 	if bad != "" {
-		r.hit("C04:"+a.Pkg()+":concurrent:invariant", fmt.Sprintf("after %d threads x %d ops: %s", threads, ops, bad))
-		return "inv-violated"
+		fmt.Println("inv-violated: " + bad)
+		return
 	}
-	return "inv-ok"
+	fmt.Println("inv-ok")
 }
 
 // ---------------------------------------------------------------- wide caches
@@ -738,7 +954,7 @@ func (r *runner) wnew(f []string) string {
 	default:
 		return "bad-op"
 	}
-	r.mode, r.tiny, r.regime = "wide", f[1] == "tiny", c >= 0
+	r.mode, r.tiny, r.regime, r.concCap = "wide", f[1] == "tiny", c >= 0, c
 	// the intended per-shard capacity capacity/shards + 1, without the int64 wrap-around
 	r.n, r.u, r.route, r.shardCap, r.wcap = n, u, route, c/int64(n), c
 	r.capOverflow = r.shardCap == math.MaxInt64
